@@ -32,7 +32,7 @@ ASSUMPTIONS = ['truth comes from aegmon/refs/render.py + wcs_zenithal.py (cross-
                'pull scale 1.4826*MAD exceeds 2.2; SNR 40-300 only; noise matched to the mode']
 MIN_REACH = {'source_finder:SourceFinder.find_sources_in_image': 1, 'source_finder:SourceFinder._fit_island': 1,
              'fitting:do_lmfit': 1}
-MIN_COUNTERS = {'nf_judged': 20, 'noisy_trials': 100, 'nf_cube_cases_plane_above_0': 4, 'nf_psfmap_judged': 6, 'nf_user_beam_cases': 5, 'nf_mas_pixel_cases': 5, 'nf_maps_saved_by_the_same_finder_first': 5}
+MIN_COUNTERS = {'nf_judged': 20, 'noisy_trials': 100, 'nf_cube_cases_plane_above_0': 4, 'nf_psfmap_judged': 6, 'nf_user_beam_cases': 5, 'nf_mas_pixel_cases': 5, 'nf_maps_saved_by_the_same_finder_first': 5, 'nf_rectangular_pixel_cases': 5}
 BATCHES_PER_JOB = 6
 KEY_D25 = 'amplitude-bound-excludes-truth'
 KEY_SPLIT = 'pixel-noise-local-maxima-split-source'
@@ -221,6 +221,24 @@ def cases(seed, tier):
     for i in range(n_mas):
         c = gen_source_case(rng, big_ok=False, mas=True)
         c.update(kind='nf', via='cli', stratum='mas', table_ext=['vot', 'csv', 'tab'][i % 3])
+        out.append(c)
+    # rectangular pixels (|CDELT1| != |CDELT2|) with a beam oblique to the grid; the source itself is aligned with the pixel axes
+    # or circular (an oblique ellipse on non-square pixels is the known finding D51 of C14 and outside what a pixel-plane
+    # ellipse can represent to first order)
+    n_rect = 10 if tier == 'quick' else 100
+    for i in range(n_rect):
+        c = gen_source_case(rng, big_ok=False)
+        c['cdelt_ratio'] = float(rng.choice([0.6, 0.75, 1.3, 1.6]))
+        c['flip_dec'] = False
+        c['use_cd'] = False
+        c['crpix'] = [c['shape'][1] / 2.0 + float(rng.uniform(-10, 10)), c['shape'][0] / 2.0 + float(rng.uniform(-10, 10))]
+        c['beam'][1] = c['beam'][0] * float(rng.uniform(0.55, 0.8))
+        c['beam'][2] = float(rng.choice([-1, 1]) * rng.uniform(25, 65))
+        if i % 2:
+            c['src']['a'] = c['src']['b']
+        else:
+            c['src']['pa'] = float(rng.choice([0.0, 90.0]))
+        c.update(kind='nf', via='cli' if i % 5 == 4 else 'api', stratum='rectpix')
         out.append(c)
     n_d25 = 30 if tier == 'quick' else 300
     for i in range(n_d25):
@@ -525,6 +543,9 @@ def _run_nf(o, case, sc):
     if case.get('user_beam'):
         wit['header_beam'] = case['header_beam']
         o.count('nf_user_beam_cases')
+    if case.get('stratum') == 'rectpix':
+        o.count('nf_rectangular_pixel_cases')
+        wit['cdelt_ratio'] = case['cdelt_ratio']
     if case.get('stratum') == 'mas':
         o.count('nf_mas_pixel_cases')
         o.see('table_format_read', case.get('table_ext'))
